@@ -40,7 +40,7 @@ theorem getLastD_concat' (l : List K) (a d : K) : (l ++ [a]).getLastD d = a := b
 
 /-- the loop invariant of the recursion: if the last information value of a state with `Z > 0`, `w > 0`
 is `A / Z - lg Z`, then after any further run it is `(A + Σ W_i lg L_i) / Z' - lg Z'` -/
-theorem run_from (lg : K → K) (s : ISt K) (A : K) (hZ : 0 < s.Z) (hw : 0 < s.w)
+theorem run_from (lg : K → K) (s : ISt K) (A : K) (hZ : 0 < s.Z) (hw : 0 < s.w) (h2 : 2 ≤ s.info.length)
     (hl : s.last = A / s.Z - lg s.Z) (steps : List (K × K)) (h : Pos steps) :
     (s.run lg steps).last =
       (A + weightedLogs lg s.w steps) / (s.Z + sumL (terms s.w steps)) - lg (s.Z + sumL (terms s.w steps)) ∧
@@ -56,12 +56,13 @@ theorem run_from (lg : K → K) (s : ISt K) (A : K) (hZ : 0 < s.Z) (hw : 0 < s.w
     have hW : 0 < s.w * L * (1 - t) := mul_pos (mul_pos hw hp.1) h1t
     have hZ' : 0 < s.Z + s.w * L * (1 - t) := by linarith
     have hcond : s.Z ≠ 0 ∧ s.Z + s.w * L * (1 - t) ≠ 0 ∧ L ≠ 0 := ⟨ne_of_gt hZ, ne_of_gt hZ', ne_of_gt hp.1⟩
+    have hlen : ¬ (s.info.length = 1 ∧ s.lastL ≠ 0) := by omega
     have hstep : s.step lg L t =
         ⟨s.Z + s.w * L * (1 - t), s.w * t,
           s.info ++ [s.w * L * (1 - t) / (s.Z + s.w * L * (1 - t)) * lg L
             + s.Z / (s.Z + s.w * L * (1 - t)) * (s.info.getLastD 0 + lg s.Z)
-            - lg (s.Z + s.w * L * (1 - t))]⟩ := by
-      simp only [ISt.step, if_pos hcond]
+            - lg (s.Z + s.w * L * (1 - t))], L⟩ := by
+      simp only [ISt.step, if_pos hcond, if_neg hlen]
     have hl' : (s.step lg L t).last =
         (A + s.w * L * (1 - t) * lg L) / (s.step lg L t).Z - lg (s.step lg L t).Z := by
       rw [hstep]
@@ -74,7 +75,8 @@ theorem run_from (lg : K → K) (s : ISt K) (A : K) (hZ : 0 < s.Z) (hw : 0 < s.w
       ring
     have hZs : 0 < (s.step lg L t).Z := by rw [hstep]; exact hZ'
     have hws : 0 < (s.step lg L t).w := by rw [hstep]; exact mul_pos hw hp.2.1
-    have := ih (s.step lg L t) (A + s.w * L * (1 - t) * lg L) hZs hws hl' h.tail
+    have h2s : 2 ≤ (s.step lg L t).info.length := by rw [hstep]; simp; omega
+    have := ih (s.step lg L t) (A + s.w * L * (1 - t) * lg L) hZs hws h2s hl' h.tail
     have eZ : (s.step lg L t).Z = s.Z + s.w * L * (1 - t) := by rw [hstep]
     have ew : (s.step lg L t).w = s.w * t := by rw [hstep]
     have ei : (s.step lg L t).info.length = s.info.length + 1 := by rw [hstep]; simp
@@ -87,8 +89,30 @@ theorem run_from (lg : K → K) (s : ISt K) (A : K) (hZ : 0 < s.Z) (hw : 0 < s.w
 
 /-- the first increment never appends an information value (`oldZ = -inf`) -/
 theorem first_step (lg : K → K) (L t : K) :
-    (ISt.init : ISt K).step lg L t = ⟨0 + 1 * L * (1 - t), 1 * t, [0]⟩ := by
+    (ISt.init : ISt K).step lg L t = ⟨0 + 1 * L * (1 - t), 1 * t, [0], L⟩ := by
   simp [ISt.step, ISt.init]
+
+/-- the second increment starts the estimate from the first point's own information `lg L₁ - lg Z₁` -/
+theorem second_step (lg : K → K) (L1 t1 L t : K) (h1 : 0 < L1) (ht1 : t1 < 1) (hL : 0 < L) (ht : t < 1) (ht0 : 0 < t1) :
+    (⟨0 + 1 * L1 * (1 - t1), 1 * t1, [0], L1⟩ : ISt K).step lg L t =
+      ⟨0 + 1 * L1 * (1 - t1) + 1 * t1 * L * (1 - t), 1 * t1 * t,
+        [0, ((1 * L1 * (1 - t1)) * lg L1 + (1 * t1 * L * (1 - t)) * lg L) / (0 + 1 * L1 * (1 - t1) + 1 * t1 * L * (1 - t))
+            - lg (0 + 1 * L1 * (1 - t1) + 1 * t1 * L * (1 - t))], L⟩ := by
+    have hZ1 : (0 : K) < 0 + 1 * L1 * (1 - t1) := by
+      have : (0 : K) < 1 * L1 * (1 - t1) := mul_pos (mul_pos one_pos h1) (by linarith)
+      linarith
+    have hW : (0 : K) < 1 * t1 * L * (1 - t) := mul_pos (mul_pos (mul_pos one_pos ht0) hL) (by linarith)
+    have hZ' : (0 : K) < 0 + 1 * L1 * (1 - t1) + 1 * t1 * L * (1 - t) := by linarith
+    have hcond : (0 + 1 * L1 * (1 - t1) : K) ≠ 0 ∧ (0 + 1 * L1 * (1 - t1) + 1 * t1 * L * (1 - t) : K) ≠ 0 ∧ L ≠ 0 :=
+      ⟨ne_of_gt hZ1, ne_of_gt hZ', ne_of_gt hL⟩
+    have hfirst : ([0] : List K).length = 1 ∧ L1 ≠ 0 := ⟨rfl, ne_of_gt h1⟩
+    simp only [ISt.step, if_pos hcond, if_pos hfirst, List.singleton_append]
+    congr 1
+    · congr 1
+      have := ne_of_gt hZ1
+      have := ne_of_gt hZ'
+      field_simp
+      ring_nf
 
 /-- the evidence accumulated by the information state is the rectangle sum (no positivity needed) -/
 theorem run_Z {K : Type} [Field K] [DecidableEq K] (lg : K → K) (s : ISt K) (steps : List (K × K)) :
